@@ -14,9 +14,20 @@ import z3
 REC: Dict[int, Any] = {}      # decl id -> (decl, params, body, twin)
 
 
+def declare(f):
+    """register a recursive function as soon as it is declared: z3 answers `unsat` to any query that
+    mentions a RecFunction whose definition has not been added yet, so until then (i.e. while its own body
+    is being translated) every query must see the uninterpreted twin instead"""
+    if f.get_id() not in REC:
+        twin = z3.Function(f.name() + '!abs', *[f.domain(i) for i in range(f.arity())], f.range())
+        REC[f.get_id()] = (f, None, None, twin)
+    return f
+
+
 def define(f, params, body):
     z3.RecAddDefinition(f, params, body)
-    twin = z3.Function(f.name() + '!abs', *[f.domain(i) for i in range(f.arity())], f.range())
+    old = REC.get(f.get_id())
+    twin = old[3] if old else z3.Function(f.name() + '!abs', *[f.domain(i) for i in range(f.arity())], f.range())
     REC[f.get_id()] = (f, list(params), body, twin)
     return f
 
@@ -53,6 +64,8 @@ def applications(terms):
 
 def instance(app):
     f, params, body, twin = REC[app.decl().get_id()]
+    if body is None:
+        return None
     return app == z3.substitute(body, *zip(params, app.children()))
 
 
@@ -68,6 +81,8 @@ def fuel(terms, depth, limit=150):
                 continue
             done.add(app.get_id())
             e = instance(app)
+            if e is None:
+                continue
             insts.append(e)
             new.append(e)
             if len(insts) >= limit:
